@@ -2,6 +2,9 @@
 //! ops:  cltv <h> <out> <in> <delta>       (hook: check_incoming_htlc_cltv)
 //!       peelfwd <h> <out> <in>            (public peel_payment_onion on a real 2-hop onion)
 //!       peelfinal <h> <onion_cltv> <htlc_cltv>   (public peel_payment_onion, final hop)
+//!       icpt <outCltv> <h>…                  (real node holding an intercepted HTLC while heights arrive: height of its own fail-back)
+//!       monscan <conf> <await> <h> <set>:<weOffered>:<cltv>:<pre>…   (real monitor: did should_broadcast_holder_commitment_txn fire at h;
+//!                                             HTLC only in the counterparty's commitment / inbound with preimage and a silent upstream)
 use ldk_verif_harness::common::*;
 use bitcoin::secp256k1::{PublicKey, Secp256k1, SecretKey};
 use lightning::ln::channelmanager::MIN_CLTV_EXPIRY_DELTA;
@@ -181,6 +184,165 @@ fn splice_cell(d: i32, style: Option<lightning::ln::functional_test_utils::Conne
 	Ok((in_cltv, out_cltv, best0, blocks))
 }
 
+/// (round 5) A -> B -> [B's intercept SCID]: B holds the intercepted HTLC and is told new heights `step` blocks at a time.
+/// `d` places the timeout: outgoing expiry = (B's best height) + HTLC_FAIL_BACK_BUFFER + d, `hop_delta` = B's delta in the
+/// onion. Returns (inCltv, outCltv as announced by HTLCIntercepted, every height delivered to B, height at which B failed
+/// the HTLC back on its own (HTLCHandlingFailed InvalidForward)).
+fn intercept_hold(d: i32, hop_delta: u32, step: u32, n_deliv: u32) -> Result<(u32, u32, Vec<u32>, Option<u32>), String> {
+	use ldk_verif_harness::sim::leak;
+	use lightning::ln::functional_test_utils::*;
+	use lightning::ln::channelmanager::PaymentId;
+	use lightning::events::{Event, HTLCHandlingFailureType};
+	use lightning::routing::router::{PaymentParameters, RouteHint, RouteHintHop, RouteParameters};
+	use lightning::routing::gossip::RoutingFees;
+	use lightning::util::config::HTLCInterceptionFlags;
+	let fbb = lightning::chain::channelmonitor::HTLC_FAIL_BACK_BUFFER as i32;
+	let mut bcfg = test_legacy_channel_config();
+	bcfg.htlc_interception_flags = HTLCInterceptionFlags::ToInterceptSCIDs as u8;
+	let chanmon_cfgs = leak(create_chanmon_cfgs(3));
+	let node_cfgs = leak(create_node_cfgs(3, chanmon_cfgs));
+	let node_chanmgrs = leak(create_node_chanmgrs(3, node_cfgs, &[Some(test_legacy_channel_config()), Some(bcfg), Some(test_legacy_channel_config())]));
+	let nodes = create_network(3, node_cfgs, node_chanmgrs);
+	let ids: Vec<PublicKey> = nodes.iter().map(|n| n.node.get_our_node_id()).collect();
+	create_announced_chan_between_nodes(&nodes, 0, 1);
+	let maxh = nodes.iter().map(|n| n.best_block_info().1).max().unwrap();
+	for n in &nodes { let dd = maxh - n.best_block_info().1; if dd > 0 { connect_blocks(n, dd); } }
+	let amt = 100_000u64;
+	let intercept_scid = nodes[1].node.get_intercept_scid();
+	let pp = PaymentParameters::from_node_id(ids[2], TEST_FINAL_CLTV)
+		.with_route_hints(vec![RouteHint(vec![RouteHintHop { src_node_id: ids[1], short_channel_id: intercept_scid, fees: RoutingFees { base_msat: 1000, proportional_millionths: 0 }, cltv_expiry_delta: MIN_CLTV_EXPIRY_DELTA, htlc_minimum_msat: None, htlc_maximum_msat: None }])]).map_err(|_| "hints")?
+		.with_bolt11_features(nodes[2].node.bolt11_invoice_features()).map_err(|_| "features")?;
+	let rp = RouteParameters::from_payment_params_and_value(pp, amt);
+	let mut route = get_route(&nodes[0], &rp).map_err(|e| format!("route {}", e))?;
+	if route.paths[0].hops.len() != 2 { return Err("route shape".into()); }
+	let final_delta = fbb + d - 1; // out = best + 1 + final_delta = best + fbb + d
+	if final_delta < 0 { return Err("d too small".into()); }
+	route.paths[0].hops[0].cltv_expiry_delta = hop_delta;
+	route.paths[0].hops[1].cltv_expiry_delta = final_delta as u32;
+	let (hash, secret, _) = nodes[2].node.create_inbound_payment(Some(amt), 3600, None, None).map_err(|_| "inbound")?;
+	nodes[0].node.send_payment_with_route(route, hash, RecipientOnionFields::secret_only(secret, amt), PaymentId(hash.0)).map_err(|e| format!("send {:?}", e))?;
+	check_added_monitors(&nodes[0], 1);
+	let upd = get_htlc_update_msgs(&nodes[0], &ids[1]);
+	let in_cltv = upd.update_add_htlcs[0].cltv_expiry;
+	{ use lightning::ln::msgs::ChannelMessageHandler; nodes[1].node.handle_update_add_htlc(ids[0], &upd.update_add_htlcs[0]); }
+	do_commitment_signed_dance(&nodes[1], &nodes[0], &upd.commitment_signed, false, true);
+	expect_and_process_pending_htlcs(&nodes[1], false);
+	let evs = nodes[1].node.get_and_clear_pending_events();
+	let mut out_cltv = None;
+	for e in &evs { if let Event::HTLCIntercepted { outgoing_htlc_expiry_block_height, .. } = e { out_cltv = *outgoing_htlc_expiry_block_height; } }
+	let out_cltv = match out_cltv { Some(o) => o, None => { std::mem::forget(nodes); return Err(format!("not intercepted (d={} events {})", d, evs.len())); } };
+	*nodes[1].connect_style.borrow_mut() = if step > 1 { ConnectStyle::BestBlockFirstSkippingBlocks } else { ConnectStyle::BestBlockFirst };
+	let mut deliv = vec![]; let mut fail_h = None;
+	for _ in 0..n_deliv {
+		connect_blocks(&nodes[1], step);
+		let h = nodes[1].best_block_info().1; deliv.push(h);
+		let evs = nodes[1].node.get_and_clear_pending_events();
+		let failed = evs.iter().any(|e| matches!(e, Event::HTLCHandlingFailed { failure_type: HTLCHandlingFailureType::InvalidForward { requested_forward_scid }, .. } if *requested_forward_scid == intercept_scid));
+		if failed && fail_h.is_none() { fail_h = Some(h); break; }
+	}
+	nodes[1].chain_monitor.added_monitors.lock().unwrap().clear();
+	std::mem::forget(nodes);
+	Ok((in_cltv, out_cltv, deliv, fail_h))
+}
+
+/// (round 5) A -> B -> C where C never answers B's update_add_htlc / commitment_signed: the forwarded HTLC is in C's
+/// (the counterparty's) CURRENT commitment only, never in B's holder commitment. Blocks are delivered to B `step` at a
+/// time. Returns (outCltv, every height delivered to B, height at which B's monitor put a transaction on the wire).
+fn unrevoked_downstream(last_delta: u32, step: u32) -> Result<(u32, Vec<u32>, Option<u32>), String> {
+	use ldk_verif_harness::sim::leak;
+	use lightning::ln::functional_test_utils::*;
+	use lightning::ln::channelmanager::PaymentId;
+	use lightning::ln::msgs::{BaseMessageHandler, ChannelMessageHandler};
+	let cfg = Some(test_legacy_channel_config());
+	let chanmon_cfgs = leak(create_chanmon_cfgs(3));
+	let node_cfgs = leak(create_node_cfgs(3, chanmon_cfgs));
+	let node_chanmgrs = leak(create_node_chanmgrs(3, node_cfgs, &[cfg.clone(), cfg.clone(), cfg]));
+	let nodes = create_network(3, node_cfgs, node_chanmgrs);
+	let ids: Vec<PublicKey> = nodes.iter().map(|n| n.node.get_our_node_id()).collect();
+	create_announced_chan_between_nodes(&nodes, 0, 1);
+	create_announced_chan_between_nodes(&nodes, 1, 2);
+	let maxh = nodes.iter().map(|n| n.best_block_info().1).max().unwrap();
+	for n in &nodes { let dd = maxh - n.best_block_info().1; if dd > 0 { connect_blocks(n, dd); } }
+	let (mut route, hash, _, secret) = lightning::get_route_and_payment_hash!(nodes[0], nodes[2], 100_000);
+	route.paths[0].hops[1].cltv_expiry_delta = last_delta;
+	let out_cltv = nodes[0].best_block_info().1 + 1 + last_delta;
+	nodes[0].node.send_payment_with_route(route, hash, RecipientOnionFields::secret_only(secret, 100_000), PaymentId(hash.0)).map_err(|e| format!("send {:?}", e))?;
+	check_added_monitors(&nodes[0], 1);
+	let upd = get_htlc_update_msgs(&nodes[0], &ids[1]);
+	nodes[1].node.handle_update_add_htlc(ids[0], &upd.update_add_htlcs[0]);
+	do_commitment_signed_dance(&nodes[1], &nodes[0], &upd.commitment_signed, false, false);
+	expect_and_process_pending_htlcs(&nodes[1], false);
+	check_added_monitors(&nodes[1], 1);
+	// B's update_add_htlc + commitment_signed for C are dropped: C never sees them
+	let fwd = nodes[1].node.get_and_clear_pending_msg_events();
+	if fwd.len() != 1 { std::mem::forget(nodes); return Err(format!("B produced {} messages instead of the one forward", fwd.len())); }
+	let seen0 = nodes[1].tx_broadcaster.txn_broadcasted.lock().unwrap().len();
+	*nodes[1].connect_style.borrow_mut() = if step > 1 { ConnectStyle::BestBlockFirstSkippingBlocks } else { ConnectStyle::BestBlockFirst };
+	let mut deliv = vec![]; let mut close_h = None;
+	for _ in 0..(last_delta + 12) {
+		connect_blocks(&nodes[1], step);
+		let h = nodes[1].best_block_info().1; deliv.push(h);
+		if nodes[1].tx_broadcaster.txn_broadcasted.lock().unwrap().len() > seen0 { close_h = Some(h); break; }
+	}
+	let _ = nodes[1].node.get_and_clear_pending_events(); let _ = nodes[1].node.get_and_clear_pending_msg_events();
+	nodes[1].chain_monitor.added_monitors.lock().unwrap().clear();
+	std::mem::forget(nodes);
+	Ok((out_cltv, deliv, close_h))
+}
+
+/// (round 5) A -> B -> C, C claims, B learns the preimage and claims upstream, but A never answers B's update_fulfill_htlc /
+/// commitment_signed: the inbound HTLC stays in B's holder commitment with its preimage known to the A-B monitor. Blocks are
+/// delivered to B `step` at a time from `lead` blocks before the monitor's trigger height. Returns (inCltv, heights
+/// delivered to B, height at which a transaction spending the A-B funding output reached B's broadcaster).
+fn silent_upstream(lead: u32, step: u32) -> Result<(u32, Vec<u32>, Option<u32>), String> {
+	use ldk_verif_harness::sim::leak;
+	use lightning::ln::functional_test_utils::*;
+	use lightning::ln::msgs::{BaseMessageHandler, ChannelMessageHandler};
+	let cfg = Some(test_legacy_channel_config());
+	let chanmon_cfgs = leak(create_chanmon_cfgs(3));
+	let node_cfgs = leak(create_node_cfgs(3, chanmon_cfgs));
+	let node_chanmgrs = leak(create_node_chanmgrs(3, node_cfgs, &[cfg.clone(), cfg.clone(), cfg]));
+	let nodes = create_network(3, node_cfgs, node_chanmgrs);
+	let ids: Vec<PublicKey> = nodes.iter().map(|n| n.node.get_our_node_id()).collect();
+	let (_, _, chan_ab, funding_ab) = create_announced_chan_between_nodes(&nodes, 0, 1);
+	create_announced_chan_between_nodes(&nodes, 1, 2);
+	let maxh = nodes.iter().map(|n| n.best_block_info().1).max().unwrap();
+	for n in &nodes { let dd = maxh - n.best_block_info().1; if dd > 0 { connect_blocks(n, dd); } }
+	let (preimage, _hash, _, _) = route_payment(&nodes[0], &[&nodes[1], &nodes[2]], 1_000_000);
+	let in_cltv = nodes[1].node.list_channels().iter().find(|c| c.channel_id == chan_ab).and_then(|c| c.pending_inbound_htlcs.first().map(|h| h.cltv_expiry)).ok_or("no inbound HTLC on A-B")?;
+	nodes[2].node.claim_funds(preimage);
+	let _ = nodes[2].node.get_and_clear_pending_events();
+	check_added_monitors(&nodes[2], 1);
+	let updates = get_htlc_update_msgs(&nodes[2], &ids[1]);
+	nodes[1].node.handle_update_fulfill_htlc(ids[2], updates.update_fulfill_htlcs[0].clone());
+	let _ = nodes[1].node.get_and_clear_pending_events();
+	check_added_monitors(&nodes[1], 1);
+	// B's update_fulfill_htlc + commitment_signed for A are taken off the queue and dropped: A never sees them
+	let to_a = get_htlc_update_msgs(&nodes[1], &ids[0]);
+	if to_a.update_fulfill_htlcs.len() != 1 { std::mem::forget(nodes); return Err("B did not claim upstream".into()); }
+	do_commitment_signed_dance(&nodes[1], &nodes[2], &updates.commitment_signed, false, false);
+	let _ = nodes[1].node.get_and_clear_pending_events(); let _ = nodes[1].node.get_and_clear_pending_msg_events();
+	let ccb = vh::consts::CLTV_CLAIM_BUFFER;
+	let best = nodes[1].best_block_info().1;
+	let target = in_cltv - ccb; // first height at which the trigger can fire
+	if target <= best + lead { std::mem::forget(nodes); return Err("trigger height already passed".into()); }
+	*nodes[1].connect_style.borrow_mut() = ConnectStyle::BestBlockFirst;
+	connect_blocks(&nodes[1], target - lead - best);
+	let spent_ab = |nodes: &Vec<Node>| nodes[1].tx_broadcaster.txn_broadcasted.lock().unwrap().iter().any(|tx| tx.input.iter().any(|i| i.previous_output.txid == funding_ab.compute_txid()));
+	if spent_ab(&nodes) { std::mem::forget(nodes); return Err("A-B commitment broadcast before the sweep started".into()); }
+	*nodes[1].connect_style.borrow_mut() = if step > 1 { ConnectStyle::BestBlockFirstSkippingBlocks } else { ConnectStyle::BestBlockFirst };
+	let mut deliv = vec![]; let mut close_h = None;
+	for _ in 0..(lead + 6) {
+		connect_blocks(&nodes[1], step);
+		let h = nodes[1].best_block_info().1; deliv.push(h);
+		if spent_ab(&nodes) { close_h = Some(h); break; }
+	}
+	let _ = nodes[1].node.get_and_clear_pending_events(); let _ = nodes[1].node.get_and_clear_pending_msg_events();
+	nodes[1].chain_monitor.added_monitors.lock().unwrap().clear();
+	std::mem::forget(nodes);
+	Ok((in_cltv, deliv, close_h))
+}
+
 fn main() {
 	let args = &parse_args("c08");
 	let mut rec = Rec::new(&args.out, "c08");
@@ -342,6 +504,69 @@ fn main() {
 			}
 		}
 	}
-	rec.notes.insert("rule".into(), "boundary sweep (±window) around every comparison of check_incoming_htlc_cltv for 7 deltas, plus PRNG-drawn real onions through the public peel_payment_onion; every case is distinct by its op text".into());
+	// (7) round 5: an intercepted HTLC held by B while new heights arrive (do_chain_event's intercepted-HTLC timeout).
+	// Model op: `icpt <outCltv> <h1> <h2> …` -> first delivered height at which the HTLC is failed back | none.
+	{
+		let fbb32 = fbb as u32;
+		let plans: Vec<(i32, u32, u32)> = if args.thorough {
+			let mut v = vec![]; for d in -2i32..=7 { for step in [1u32, 2, 3] { v.push((d, (MIN_CLTV_EXPIRY_DELTA as u32) + (d.rem_euclid(3) as u32) * 30, step)); } } v
+		} else { vec![(0, 48, 1), (1, 48, 1), (2, 72, 1), (4, 48, 1), (3, 48, 2), (5, 144, 3), (-1, 48, 1), (7, 48, 1)] };
+		for (d, hop_delta, step) in plans {
+			match guarded(std::panic::AssertUnwindSafe(move || intercept_hold(d, hop_delta, step, if d >= 7 { 3 } else { 9 }))) {
+				Ok(Ok((in_cltv, out_cltv, deliv, fail_h))) => {
+					// impl oracle (independent of the model): held below out - HTLC_FAIL_BACK_BUFFER, failed back by the node itself
+					// at the first delivered height from there on, and by then the upstream HTLC is still far from its own deadline
+					let first = deliv.iter().copied().find(|h| *h + fbb32 >= out_cltv);
+					if fail_h != first && !(fail_h.is_none() && first.is_none()) { rec.oracle_fail(format!("intercepted HTLC (outgoing expiry {}, inbound expiry {}) failed back at {:?}; first delivered height within HTLC_FAIL_BACK_BUFFER of the outgoing expiry is {:?} (delivered {:?}) [d={} step={}]", out_cltv, in_cltv, fail_h, first, deliv, d, step)); }
+					if let Some(fh) = fail_h { if fh + grace as u32 + 2 * max_conf as u32 >= in_cltv { rec.oracle_fail(format!("intercepted HTLC failed back at {} with the inbound expiry {} less than grace + claim buffer away", fh, in_cltv)); } }
+					let op = format!("icpt {} {}", out_cltv, deliv.iter().map(|h| h.to_string()).collect::<Vec<_>>().join(" "));
+					rec.case(&op, &fail_h.map(|h| h.to_string()).unwrap_or("none".into()), &format!("e2e:intercept-hold step={} {}", step, if fail_h.is_some() { "timed-out" } else { "held" }), true);
+				},
+				Ok(Err(e)) => { rec.discarded += 1; rec.notes.insert(format!("intercept_hold d={} step={}", d, step), e); },
+				Err(p) => rec.oracle_fail(format!("intercept-hold scenario d={} step={} panicked: {}", d, step, p.chars().take(300).collect::<String>())),
+			}
+		}
+	}
+	// (8) round 5: the forwarded HTLC exists only in the COUNTERPARTY's current commitment (C never answered). The monitor's
+	// trigger must still fire at the first delivered height >= expiry + grace. Model op (whole should_broadcast_holder_commitment_txn:
+	// gate + translated scan list + direction): `monscan <spendConfirmed> <spendAwaiting> <h> <set>:<weOffered>:<cltv>:<pre>…`
+	{
+		let plans: Vec<(u32, u32)> = if args.thorough { vec![(5, 1), (8, 2), (6, 3), (12, 1), (9, 5)] } else { vec![(5, 1), (7, 2)] };
+		for (last_delta, step) in plans {
+			match guarded(std::panic::AssertUnwindSafe(move || unrevoked_downstream(last_delta, step))) {
+				Ok(Ok((out_cltv, deliv, close_h))) => {
+					let first = deliv.iter().copied().find(|h| *h >= out_cltv + grace as u32);
+					if close_h != first { rec.oracle_fail(format!("HTLC only in the counterparty's commitment (expiry {}): B went on chain at {:?}, first delivered height >= expiry + grace is {:?} (delivered {:?}, step {})", out_cltv, close_h, first, deliv, step)); }
+					for h in &deliv {
+						let fired = close_h == Some(*h);
+						rec.case(&format!("monscan 0 0 {} counterpartyCurrent:1:{}:0", h, out_cltv), if fired { "true" } else { "false" }, &format!("e2e:monscan counterparty-only fired={}", fired), true);
+					}
+				},
+				Ok(Err(e)) => { rec.discarded += 1; rec.notes.insert(format!("unrevoked_downstream delta={} step={}", last_delta, step), e); },
+				Err(p) => rec.oracle_fail(format!("unrevoked-downstream scenario panicked: {}", p.chars().take(300).collect::<String>())),
+			}
+		}
+	}
+	// (9) round 5: the inbound-with-preimage side of the trigger on real nodes: B knows the preimage, the upstream peer A is
+	// silent. B must go on chain upstream at the first delivered height h with inCltv <= h + CLTV_CLAIM_BUFFER, not before.
+	{
+		let plans: Vec<(u32, u32)> = if args.thorough { vec![(3, 1), (4, 2), (5, 3), (2, 1), (7, 5), (1, 1)] } else { vec![(3, 1), (4, 3)] };
+		let ccb = vh::consts::CLTV_CLAIM_BUFFER;
+		for (lead, step) in plans {
+			match guarded(std::panic::AssertUnwindSafe(move || silent_upstream(lead, step))) {
+				Ok(Ok((in_cltv, deliv, close_h))) => {
+					let first = deliv.iter().copied().find(|h| in_cltv <= *h + ccb);
+					if close_h != first { rec.oracle_fail(format!("silent upstream, preimage known (inbound expiry {}): B went on chain upstream at {:?}, first delivered height h with expiry <= h + CLTV_CLAIM_BUFFER is {:?} (delivered {:?}, step {})", in_cltv, close_h, first, deliv, step)); }
+					for h in &deliv {
+						let fired = close_h == Some(*h);
+						rec.case(&format!("monscan 0 0 {} holderCurrent:0:{}:1 counterpartyPrev:0:{}:1", h, in_cltv, in_cltv), if fired { "true" } else { "false" }, &format!("e2e:monscan inbound-preimage fired={}", fired), true);
+					}
+				},
+				Ok(Err(e)) => { rec.discarded += 1; rec.notes.insert(format!("silent_upstream lead={} step={}", lead, step), e); },
+				Err(p) => rec.oracle_fail(format!("silent-upstream scenario panicked: {}", p.chars().take(300).collect::<String>())),
+			}
+		}
+	}
+	rec.notes.insert("rule".into(), "boundary sweep (±window) around every comparison of check_incoming_htlc_cltv for 7 deltas, plus PRNG-drawn real onions through the public peel_payment_onion; e2e families on real 3-node networks: dead downstream (single blocks / jumps), pending splice + holding cell, intercepted HTLC held across its timeout boundary (d=-1..7, steps 1-3), forwarded HTLC only in the counterparty's commitment, inbound HTLC with known preimage and a silent upstream; every case is distinct by its op text".into());
 	rec.finish();
 }
